@@ -491,12 +491,37 @@ pub fn check_noise(cfg: &BerCfg, obs: &BerObs, label: &str) -> (Vec<Violation>, 
         let mut max_res: f64 = 0.0;
         // frames of this point, by worker
         let mut by_worker: std::collections::BTreeMap<usize, Vec<Vec<f64>>> = Default::default();
+        let mut per_frame_bad: Option<String> = None;
+        let mut frames_checked = 0u64;
         for (pe, w, _j, llrs) in obs.llrs.iter().filter(|x| x.0 == e) {
             let _ = pe;
             let Some((c, _)) = complete_codeword(cfg, llrs) else { continue };
             let fnz = frame_noise(cfg, sigma, llrs, &c);
             for &x in &fnz.noise {
                 all.add(x);
+            }
+            // every frame on its own ("every frame of every worker"): the noise energy of one
+            // frame is sigma^2 * chi^2_N / N. Wilson-Hilferty bounds at |z| = 8.5 (true tail
+            // probabilities below 1e-18 for N >= 24), so no seed raises this on a correct chain,
+            // while a frame without noise, or with the noise of a grossly different sigma, does
+            // (seeded change C12-r4-3: a noiseless warm-up frame per worker).
+            let nn = fnz.noise.len() as f64;
+            if nn >= 24.0 {
+                let q = fnz.noise.iter().map(|x| x * x).sum::<f64>() / (nn * sigma * sigma);
+                let a = 2.0 / (9.0 * nn);
+                let lo = (1.0 - a - 8.5 * a.sqrt()).max(0.0).powi(3);
+                let hi = (1.0 - a + 8.5 * a.sqrt()).powi(3);
+                frames_checked += 1;
+                if !(q >= lo && q <= hi) && per_frame_bad.is_none() {
+                    per_frame_bad = Some(format!(
+                        "{} point {} (Eb/N0 {} dB, expected sigma {:.6}): frame {} of worker {}: noise energy / (N sigma^2) = {:.4e} with N = {} samples, outside [{:.3e}, {:.3e}] (a chi-square of N degrees of freedom leaves that interval with probability < 1e-18)",
+                        label, e, ebn0, sigma, _j, w, q, nn, lo, hi
+                    ));
+                }
+                let mu = fnz.noise.iter().sum::<f64>() / nn;
+                if !(mu.abs() <= 8.5 * sigma / nn.sqrt()) && per_frame_bad.is_none() {
+                    per_frame_bad = Some(format!("{} point {}: frame {} of worker {}: noise mean {:.4e} over {} samples, beyond 8.5 sigma/sqrt(N) = {:.3e}", label, e, _j, w, mu, nn, 8.5 * sigma / nn.sqrt()));
+                }
             }
             for &(a, b) in &fnz.pairs {
                 re.add(a);
@@ -540,6 +565,9 @@ pub fn check_noise(cfg: &BerCfg, obs: &BerObs, label: &str) -> (Vec<Violation>, 
                     cross_worker.add(*a, *b);
                 }
             }
+        }
+        if let Some(m) = per_frame_bad {
+            v.push(Violation::new("noise-frame", m));
         }
         let n = all.n;
         if n < 5000.0 {
@@ -587,7 +615,7 @@ pub fn check_noise(cfg: &BerCfg, obs: &BerObs, label: &str) -> (Vec<Violation>, 
             v.push(Violation::new("noise", format!("{} point {}: 8PSK inversion residual {:e}", label, e, max_res)));
         }
         report.push(json!({
-            "point": e, "ebn0_db": ebn0, "sigma": sigma, "samples": n,
+            "point": e, "ebn0_db": ebn0, "sigma": sigma, "samples": n, "frames_checked_individually": frames_checked,
             "var_over_sigma2": all.var() / s2, "mean": all.mean(), "lag1": lag1.r(),
             "re_im_corr": if cfg.psk8 { json!(reim.r()) } else { json!(null) },
             "cross_worker_corr": if cross_worker.n > 0.0 { json!(cross_worker.r()) } else { json!(null) },
